@@ -1,1 +1,255 @@
-fn main() { eprintln!("engine not built yet"); std::process::exit(2); }
+//! C14 — random ranges, determinism, shuffle (form I, level: exploration).
+//!
+//! Families (each reports its first / minimal failing case):
+//!   int_range_in_bounds, int_range_reachable      — gen_from_u64 called directly, reference = interval membership in i128
+//!   float_range_hits_end / float_range_other / float_range_length_overflow
+//!   determinism
+//!   shuffle_is_permutation, shuffle_reaches_all, shuffle_frequency
+//!   small_range_not_periodic (+ low-bit machine diagnostic, evidence only)
+//! No oracle refers to the actual numbers of the stream.
+
+mod floats;
+mod ints;
+mod streams;
+
+use ints::IntTy;
+use vcore::*;
+
+fn confirm(v: &Value) -> Result<(), String> {
+    match v["family"].as_str().unwrap_or("") {
+        "int_range_in_bounds" => ints::confirm_bounds(v),
+        "int_range_reachable" => ints::confirm_reach(v),
+        "float_range_hits_end" | "float_range_other" | "float_range_length_overflow" => floats::confirm(v),
+        "determinism" => streams::confirm_determinism(v),
+        "shuffle_is_permutation" | "shuffle_reaches_all" | "shuffle_frequency" => streams::confirm_shuffle(v),
+        "small_range_not_periodic" => streams::confirm_period(v),
+        other => Err(format!("unknown family {other:?} in replay file")),
+    }
+}
+
+fn main() {
+    let args = Args::parse();
+    quiet_panics();
+    if args.replay.is_some() {
+        Run::replay_main(&args, &confirm);
+    }
+    let mut run = Run::new(&args, "rand", "exploration");
+    let tier = args.tier;
+    let mut evaluations = 0u64;
+    let mut nontrivial = 0u64;
+
+    // ---------------------------------------------------------------- integer ranges
+    let mut reports: Vec<ints::TypeFormReport> = vec![];
+    // 8-bit types: every range of every form; 16-bit: every `..b` / `..=b` in the thorough tier
+    let exh16 = tier.pick(false, true);
+    reports.extend(ints::run_type::<i8>(true, true));
+    reports.extend(ints::run_type::<u8>(true, true));
+    reports.extend(ints::run_type::<i16>(false, exh16));
+    reports.extend(ints::run_type::<u16>(false, exh16));
+    reports.extend(ints::run_type::<i32>(false, false));
+    reports.extend(ints::run_type::<u32>(false, false));
+    reports.extend(ints::run_type::<i64>(false, false));
+    reports.extend(ints::run_type::<u64>(false, false));
+    reports.extend(ints::run_type::<isize>(false, false));
+    reports.extend(ints::run_type::<usize>(false, false));
+    let mut per = serde_json::Map::new();
+    let mut tot = ints::Summary::default();
+    let (mut skipped, mut skipped_panicked) = (0u64, 0u64);
+    let mut bounds_reported = false;
+    let mut reach_reported = false;
+    for r in &reports {
+        let s = &r.summary;
+        per.insert(
+            format!("{}:{}", r.ty, r.form.name()),
+            json!({"ranges": s.cases, "draws": s.evals, "ranges_with_2+_distinct_results": s.nontrivial, "small_ranges": s.small_cases,
+                   "values_required_reachable": s.reach_required, "of_which_hit_by_raw_below_len": s.reach_low_witnessed,
+                   "empty_ranges_skipped": r.skipped, "of_which_the_code_panics_on": r.skipped_panicked,
+                   "ranges_out_of_bounds": s.failing_bounds, "ranges_with_unreachable_value": s.failing_reach}),
+        );
+        skipped += r.skipped;
+        skipped_panicked += r.skipped_panicked;
+        if let (false, Some((_, f))) = (bounds_reported, &s.first_bounds) {
+            bounds_reported = true;
+            run.violation(ints::bounds_violation(r.ty, f, s.failing_bounds));
+        }
+        if let (false, Some((_, f))) = (reach_reported, &s.first_reach) {
+            reach_reported = true;
+            run.violation(ints::reach_violation(r.ty, f, s.failing_reach));
+        }
+        tot = tot.merge(s.clone());
+    }
+    for r in reports.iter().filter(|r| (r.ty == "i8" && r.form == ints::Form::Incl) || (r.ty == "u64" && r.form == ints::Form::Full) || (r.ty == "i64" && r.form == ints::Form::Range)) {
+        run.sample(r.sample.clone());
+    }
+    run.cov("int_per_type_and_form", Value::Object(per));
+    run.cov("int_ranges", tot.cases);
+    run.cov("int_draws", tot.evals);
+    run.cov("int_ranges_nontrivial", tot.nontrivial);
+    run.cov("int_small_ranges_checked_for_reachability", tot.small_cases);
+    run.cov("int_values_required_reachable", tot.reach_required);
+    run.cov("int_values_hit_by_raw_below_len", tot.reach_low_witnessed);
+    run.cov("int_inclusive_ranges_starting_at_MIN", tot.incl_min_start);
+    run.cov("int_inclusive_ranges_not_starting_at_MIN", tot.incl_nonmin_start);
+    run.cov("int_inclusive_full_width_ranges", tot.incl_full);
+    run.cov("int_ranges_out_of_bounds", tot.failing_bounds);
+    run.cov("int_ranges_with_unreachable_value", tot.failing_reach);
+    run.cov("skipped_out_of_domain", skipped);
+    run.cov("skipped_out_of_domain_on_which_the_code_panics", skipped_panicked);
+    evaluations += tot.evals;
+    nontrivial += tot.nontrivial;
+    if tot.cases < 100_000 || !tot.saw_top_raw || !tot.saw_negative || tot.incl_min_start < 1000 || tot.incl_nonmin_start < 1000 || tot.incl_full != 10 || tot.small_cases < 100_000 {
+        run.machinery_failure("integer range enumeration explored implausibly little (ranges, raw >= 2^63, negative results, the three RangeInclusive branches, small ranges)");
+    }
+    if tot.failing_bounds == 0 && tot.nontrivial * 10 < tot.cases * 9 {
+        // ranges of length 1 are the only ones that may give a single value
+        run.machinery_failure("fewer than 90% of the integer ranges produced two distinct results");
+    }
+    // the reference itself: interval arithmetic on a few literals
+    if ints::written::<i8>(ints::Form::To, 0, 5) != (-128, 4) || ints::must_reach::<i8>(ints::Form::ToIncl, 0, 5) != (0, 5) || ints::written::<u16>(ints::Form::Full, 0, 0) != (0, 65535) || <i64 as IntTy>::min() != i64::MIN as i128 || <usize as IntTy>::max() != usize::MAX as i128 {
+        run.machinery_failure("integer reference self-check failed");
+    }
+
+    // ---------------------------------------------------------------- float ranges
+    let fr = floats::run();
+    run.cov("float_ranges", fr.pairs);
+    run.cov("float_ranges_whose_length_overflows", fr.pairs_overflowing);
+    run.cov("float_empty_ranges_skipped", fr.skipped_empty);
+    run.cov("float_draws", fr.evals);
+    run.cov("float_draws_with_raw_in_top_2048", fr.top_raw_evals);
+    run.cov("float_ranges_nontrivial", fr.nontrivial);
+    run.cov("float_failing_ranges_hits_end", fr.failing_pairs[0]);
+    run.cov("float_failing_ranges_other", fr.failing_pairs[1]);
+    run.cov("float_failing_ranges_length_overflow", fr.failing_pairs[2]);
+    run.add("skipped_out_of_domain", fr.skipped_empty);
+    evaluations += fr.evals;
+    nontrivial += fr.nontrivial;
+    for f in &fr.first {
+        run.violation(floats::violation(f, &fr));
+    }
+    if let Some(s) = &fr.sample {
+        run.sample(s.clone());
+    }
+    if fr.pairs < 150 || fr.pairs_overflowing < 3 || fr.top_raw_evals < fr.pairs * 2048 || fr.nontrivial < 50 {
+        run.machinery_failure("float range enumeration explored implausibly little");
+    }
+
+    // ---------------------------------------------------------------- determinism
+    let dense = tier.pick(65535u64, (1 << 20) - 1);
+    let det = streams::run_determinism(dense);
+    run.cov("determinism_seeds", det.seeds);
+    run.cov("determinism_distinct_streams", det.distinct_streams);
+    run.cov("determinism_failing_seeds", det.failing);
+    evaluations += det.seeds * 4;
+    if let Some((seed, mode, msg)) = &det.first {
+        run.violation(Violation::new(format!("determinism:seed={seed}:{mode}"), msg.clone(), json!({"family": "determinism", "seed": seed.to_string(), "mode": mode})));
+    } else if det.distinct_streams < 2 {
+        run.machinery_failure("all seeds gave the same stream: the determinism check compares nothing");
+    }
+    run.sample(json!({"family": "determinism", "seed": "42", "stream_fingerprint": format!("{:?}", streams::determinism_one(42).map_err(|e| e.1)), "draws": streams::STREAM_LEN}));
+
+    // ---------------------------------------------------------------- shuffle
+    let seeds = tier.pick(720 * 300u64, 720 * 30_000);
+    let sh = streams::run_shuffle(seeds);
+    run.cov("shuffle_seeds", seeds);
+    run.cov("shuffles", sh.shuffles);
+    run.cov("shuffle_not_a_permutation", sh.bad);
+    evaluations += sh.shuffles;
+    if let Some((seed, len, obs)) = &sh.first_bad {
+        run.violation(Violation::new(
+            format!("shuffle_is_permutation:len={len}:seed={seed}"),
+            format!("shuffling 0..{len} with Rng::from_seed({seed}) {obs}; expected a rearrangement of the same elements"),
+            json!({"family": "shuffle_is_permutation", "len": len, "seed": seed.to_string()}),
+        ));
+    }
+    let mut reach_rows = vec![];
+    let (mut reach_done, mut freq_done) = (false, false);
+    let mut distinct_perms = 0u64;
+    for len in 2..=streams::MAX_COUNT_LEN {
+        let c = &sh.counts[len];
+        let total = c.len() as u64;
+        let mean = seeds as f64 / total as f64;
+        let reached = c.iter().filter(|&&x| x > 0).count() as u64;
+        distinct_perms += reached;
+        let (mn, mx) = (*c.iter().min().unwrap(), *c.iter().max().unwrap());
+        let out_of_band = c.iter().filter(|&&x| (x as f64) < mean / 2.0 || (x as f64) > mean * 2.0).count() as u64;
+        reach_rows.push(json!({"len": len, "rearrangements": total, "reached": reached, "mean_count": mean, "min_count": mn, "max_count": mx, "counts_outside_half_to_double_mean": out_of_band}));
+        if !reach_done {
+            if let Some(r) = c.iter().position(|&x| x == 0) {
+                reach_done = true;
+                let perm = streams::perm_unrank(r, len);
+                let ps: String = perm.iter().map(|d| d.to_string()).collect();
+                run.violation(Violation::new(
+                    format!("shuffle_reaches_all:len={len}:perm={ps}"),
+                    format!("no seed in [0,{seeds}) shuffles 0..{len} into {perm:?}: only {reached} of the {total} rearrangements are reached (mean count per rearrangement {mean:.1})"),
+                    json!({"family": "shuffle_reaches_all", "len": len, "seeds": seeds, "perm": perm}),
+                ));
+            }
+        }
+        if !freq_done {
+            if let Some(r) = c.iter().position(|&x| (x as f64) < mean / 2.0 || (x as f64) > mean * 2.0) {
+                freq_done = true;
+                let perm = streams::perm_unrank(r, len);
+                let ps: String = perm.iter().map(|d| d.to_string()).collect();
+                run.violation(Violation::new(
+                    format!("shuffle_frequency:len={len}:perm={ps}"),
+                    format!("{} of the seeds in [0,{seeds}) shuffle 0..{len} into {perm:?}; the mean per rearrangement is {mean:.1}, allowed [{:.1}, {:.1}] ({out_of_band} of {total} counts are outside; min {mn}, max {mx})", c[r], mean / 2.0, mean * 2.0),
+                    json!({"family": "shuffle_frequency", "len": len, "seeds": seeds, "perm": perm}),
+                ));
+            }
+        }
+    }
+    run.cov("shuffle_reach_and_frequency", Value::Array(reach_rows));
+    run.cov("shuffle_distinct_rearrangements_seen_len_le_6", distinct_perms);
+    run.cov("shuffle_non_identity_results_per_len", json!(sh.non_identity));
+    if sh.bad == 0 && (2..=streams::MAX_PERM_LEN).any(|l| sh.non_identity[l] == 0) {
+        run.machinery_failure("some slice length was never rearranged by any seed: the shuffle checks compare nothing");
+    }
+    if streams::perm_rank(&[2, 0, 1]) != 4 || streams::perm_unrank(4, 3) != vec![2, 0, 1] || (0..720).any(|r| streams::perm_rank(&streams::perm_unrank(r, 6)) != r) || streams::is_permutation(&[0, 0, 2], 3) {
+        run.machinery_failure("permutation rank self-check failed");
+    }
+    run.sample(json!({"family": "shuffle", "seed": "42", "len": 6, "observed": format!("{:?}", streams::shuffled(42, 6))}));
+
+    // ---------------------------------------------------------------- serial structure
+    if let Err(e) = streams::period_detector_selftest() {
+        run.machinery_failure(&e);
+    }
+    let (pseeds, draws, maxp) = tier.pick((256u64, 4096usize, 1024usize), (4096, 16384, 4096));
+    let pr = streams::run_period(pseeds, draws, maxp);
+    run.cov("period_streams", pr.streams);
+    run.cov("period_draws_per_stream", draws as u64);
+    run.cov("period_max_period_searched", maxp as u64);
+    run.cov("period_distinct_streams", pr.distinct_streams);
+    run.cov("period_periodic_streams", pr.periodic);
+    run.cov("period_periodic_by_len", Value::Array(pr.periodic_lens.iter().map(|(l, n, p)| json!({"len": l, "periodic_seeds": n, "smallest_period": p})).collect()));
+    evaluations += pr.streams;
+    if let Some((len, seed, what)) = &pr.first {
+        let lens: Vec<usize> = pr.periodic_lens.iter().map(|e| e.0).collect();
+        run.violation(Violation::new(
+            format!("small_range_not_periodic:len={len}:seed={seed}"),
+            format!("the {draws}-draw stream of next(0..{len}) from Rng::from_seed({seed}) has {what}; {} of {} streams are periodic with period <= {maxp}, for len in {lens:?}", pr.periodic, pr.streams),
+            json!({"family": "small_range_not_periodic", "len": len, "seed": seed.to_string(), "draws": draws, "max_period": maxp}),
+        ));
+    }
+    if pr.distinct_streams < pr.streams / 4 {
+        // 2^k-periodic streams of different seeds may coincide, but not most of them
+        if pr.periodic == 0 {
+            run.machinery_failure("most small-range streams coincide although none is periodic");
+        }
+    }
+    run.sample(json!({"family": "small_range_not_periodic", "seed": "0", "len": 4, "first_draws": format!("{:?}", streams::small_stream(0, 4, 16))}));
+    run.cov("lowbit_machine_diagnostic", streams::lowbit_diagnostic());
+
+    // ---------------------------------------------------------------- totals
+    run.cov("evaluations", evaluations);
+    run.cov("distinct_nontrivial", nontrivial);
+    run.cov(
+        "rule",
+        "integer: every (start,end) of a..b, a..=b, ..b, ..=b, .. for i8/u8 (thorough: also every ..b, ..=b for i16/u16) and all pairs of boundary values + anchored boundary lengths (1,2,3,2^k,2^k+-1,MAX,full) for the wider types, each crossed with the raw alphabet R(len) (0..=2len, top of u64, neighbours of multiples of len near 2^8..2^64, powers of two, ceil(k*2^64/len)); float: all ordered pairs of a 20-value boundary grid x 2300 raw values; generator: all seeds of the stated sets. \
+         distinct_nontrivial = number of distinct integer (type,form,range) cases + float ranges whose draws produced at least two different in-range values (measured)",
+    );
+    run.cov("exhaustive", true);
+    run.cov("exhaustive_note", "exhaustive over the stated finite sets (all 8-bit ranges, the boundary sets for wider types, the float grid, seeds [0,S)); not over all u64 raw values or all seeds");
+    run.assume("`..b` and `..=b` are read as the library and its own tests read them, as 0..b and 0..=b: a non-positive (negative) end is an empty range and outside the domain; results are accepted anywhere inside the written range MIN..b, and only 0..b is required to be reachable");
+    run.assume("reachability of a small range is witnessed on a stated finite raw alphabet (which contains 0..=2*len and ceil(k*2^64/len) for every k), not on all of u64");
+    run.finish(&confirm)
+}
